@@ -99,11 +99,29 @@ pub(crate) fn checked_div_rounded(
             shift = divident_n_frac_digits - shift;
             // shift < divident_n_frac_digits => shift < 18 => ten_pow(shift)
             // is safe
-            Some(i128_div_rounded(
-                divident_coeff / divisor_coeff,
-                ten_pow(shift),
-                None,
-            ))
+            let quot = divident_coeff / divisor_coeff;
+            if divident_coeff % divisor_coeff == 0 {
+                Some(i128_div_rounded(quot, ten_pow(shift), None))
+            } else {
+                // The first division is inexact, so rounding its truncated
+                // quotient would round twice. Double the quotient and make
+                // it odd (a sticky bit with the sign of the exact quotient):
+                // the odd numerator compares to every multiple of
+                // 10 ^ shift like the exact value does, hence one rounding.
+                // |divisor| >= 2 here, so 2 * quot + 1 can not overflow.
+                let sticky = if divident_coeff.is_negative()
+                    == divisor_coeff.is_negative()
+                {
+                    1
+                } else {
+                    -1
+                };
+                Some(i128_div_rounded(
+                    2 * quot + sticky,
+                    2 * ten_pow(shift),
+                    None,
+                ))
+            }
         }
     }
 }
